@@ -8,7 +8,7 @@ from props import PROPS, NOT_APPLICABLE, HOOK_COMMITS
 ids = [json.loads(l)["id"] for l in open(os.path.join(ROOT, "properties.jsonl"))]
 checks = []
 for pid in ids:
-    if pid not in PROPS:
+    if pid not in PROPS or PROPS[pid].get("wip"):
         continue
     P = PROPS[pid]
     checks.append({
@@ -22,7 +22,7 @@ for pid in ids:
         "level_note": P["level_note"],
         "technique": P.get("technique", "TLA+ specification; TLC bounded model checking of the design (MC_%s) + TLC trace validation (Trace_%s) of events recorded from the real crate" % (pid, pid)),
     })
-na = [{"property_id": p, "reason": NOT_APPLICABLE.get(p, "check not built yet (work in progress); not claimed")} for p in ids if p not in PROPS]
+na = [{"property_id": p, "reason": NOT_APPLICABLE.get(p, "check not built yet (work in progress); not claimed")} for p in ids if p not in PROPS or PROPS[p].get("wip")]
 m = {
     "version": 1,
     "setup_cmd": "cd harness && cargo build --release --offline --bins",
